@@ -5,6 +5,7 @@ partial cache of Drand/Beacon/Cache.lean. The cache-level statements `c03_distin
 `c03_malformed_ignored` live in DrandProofs/C12Cache.lean.
 All theorems quantify over the cryptographic oracle and over every finite list of events.
 -/
+import DrandProofs.C07Net
 import Drand.Beacon.Node
 import Gen.DKGRun
 import DrandProofs.C01
